@@ -296,6 +296,9 @@ bool DictCompiler::BuildReverseDb(DictSettings* settings,
   // build .reverse.bin
   auto target_path = target_resolver_->ResolvePath(dict_name_ + ".reverse.bin");
   ReverseDb reverse_db(target_path);
+  // like the table and the prism: never rebuild over the old image, whose
+  // format tag would vouch for a half-written or truncated file.
+  reverse_db.Remove();
   if (!reverse_db.Build(settings, collector.syllabary, vocabulary,
                         collector.stems, dict_file_checksum) ||
       !reverse_db.Save()) {
